@@ -115,6 +115,11 @@ func (k *RoutineContainer) SetContext(ctx context.Context, restart bool) bool {
 			return
 		}
 
+		if rr.err != nil && !restart && ctx != nil {
+			// exited with an error and not asked to restart: keep any pending retry
+			return
+		}
+
 		rr.stop()
 		if rr.err == nil || restart {
 			if ctx != nil {
